@@ -334,10 +334,26 @@ def run_impl(scn):
             return out
         algo._sort_fn = srt
     err, sched, raw = None, None, None
+    trace = None
+    import acnportal.algorithms.sorted_algorithms as sa_mod
+    orig_feas = sa_mod.infrastructure_constraints_feasible
+    if scn["algo"] == "rr":
+        # observe the intermediate round-robin states: every vector handed to the feasibility check inside
+        # round_robin() and the verdict (the real function is still the one that decides)
+        trace = []
+
+        def feas(rates, infrastructure, *a, **k):
+            r = orig_feas(rates, infrastructure, *a, **k)
+            if trace is not None and len(trace) <= 3000:
+                trace.append(([float(x) for x in np.asarray(rates, dtype=float)], bool(r)))
+            return r
+        sa_mod.infrastructure_constraints_feasible = feas
     try:
         raw = algo.run()
     except Exception as e:  # noqa
         err = type(e).__name__
+    finally:
+        sa_mod.infrastructure_constraints_feasible = orig_feas
     N = scn["infra"]["N"]
     shape_ok = True
     if raw is not None:
@@ -360,7 +376,8 @@ def run_impl(scn):
     store = None
     if est is not None:
         store = {sid_of(k): float(v) for k, v in est.upper_bounds.items()}
-    return dict(err=err, sched=sched, pre=rec["pre"], order=rec["order"], store=store, shape_ok=shape_ok)
+    return dict(err=err, sched=sched, pre=rec["pre"], order=rec["order"], store=store, shape_ok=shape_ok,
+                rr_trace=trace if (trace is not None and len(trace) <= 3000) else None)
 
 
 # =============================================================================================
